@@ -3,9 +3,18 @@
    type, flags, protocol version 1, body length, serial, array of header
    fields (code, variant) in any order, possibly with unknown codes - then
    zero padding to an 8-byte boundary, then the body: the values of the
-   SIGNATURE header field encoded in sequence from offset 0 of the body. *)
-From Tx Require Import Lib.Base Spec.WireSpec.
+   SIGNATURE header field encoded in sequence from offset 0 of the body.
+
+   Part 1: messages as they appear on the wire ([smsg], [msg_enc]) and what a
+           receiver must recover from them ([recovered]).
+   Part 2: messages as an application describes them to a constructor
+           ([amsg]: type, flags, the header fields of the specification's
+           per-type table, a typed body) and the wire message they denote.   *)
+From Tx Require Import Lib.Base Model.PyVal Model.Marshal Spec.WireSpec Spec.Readback Spec.WireTyped Spec.Conforms Spec.Grammar.
 Local Open Scope N_scope.
+
+(* ---------------------------------------------------------------------------
+   Part 1: wire messages                                                        *)
 
 Definition hdr_ts : list ty :=
   [TByte; TByte; TByte; TByte; TUInt32; TUInt32; TArray (TStruct [TByte; TVariant])].
@@ -34,3 +43,213 @@ Definition msg_header (m : smsg) : bytes :=
 
 Definition msg_enc (m : smsg) : bytes :=
   msg_header m ++ padding 8 (length (msg_header m)) ++ msg_body m.
+
+(* the type the specification assigns to each header field code ("Header
+   Fields" table): PATH o, INTERFACE s, MEMBER s, ERROR_NAME s, REPLY_SERIAL u,
+   DESTINATION s, SENDER s, SIGNATURE g, UNIX_FDS u; other codes: any type *)
+Definition field_ty (code : Z) : option ty :=
+  match code with
+  | 1 => Some TObjPath | 2 | 3 | 4 | 6 | 7 => Some TString | 5 | 9 => Some TUInt32 | 8 => Some TSig
+  | _ => None
+  end%Z.
+
+Definition known_code (code : Z) : bool := (1 <=? code)%Z && (code <=? 9)%Z.
+
+Definition field_ok (fds : list pyval) (f : Z * ty * wval) : Prop :=
+  let '(code, t, w) := f in
+  (0 <= code < 256)%Z /\ (length (show t) <= 255)%nat /\ wt fds t w /\
+  match field_ty code with Some t' => t = t' | None => True end.
+
+(* the SIGNATURE header field (code 8) of a field list; a conformant message
+   has at most one, for a list with several this is the last one *)
+Fixpoint sig_field (fields : list (Z * ty * wval)) : option str :=
+  match fields with
+  | [] => None
+  | (code, t, w) :: r =>
+      match sig_field r with
+      | Some s => Some s
+      | None => match code, w with 8%Z, WStr s => Some s | _, _ => None end
+      end
+  end.
+
+(* a well-typed wire message: what "spec-conformant bytes another
+   implementation would produce" are the encoding of.  (The specification
+   demands more - serial non-zero, the required fields of the type present,
+   total length at most 2^27 - none of which the statements below need.) *)
+Definition msg_wt (fds : list pyval) (m : smsg) : Prop :=
+  (1 <= s_type m <= 4)%Z /\ (0 <= s_flags m < 256)%Z /\ (0 <= s_serial m < 4294967296)%Z /\
+  Forall (field_ok fds) (s_fields m) /\
+  wt_seq fds (s_body_ts m) (s_body m) /\
+  (* the body is typed by the SIGNATURE field; without one (or with an empty one) there is no body *)
+  match s_body_ts m with
+  | [] => sig_field (s_fields m) = None \/ sig_field (s_fields m) = Some []
+  | ts => sig_field (s_fields m) = Some (show_list ts)
+  end /\
+  len (msg_enc m) < 4294967296.
+
+(* nesting depth of the values of a message: the fuel the model needs *)
+Definition msg_depth (m : smsg) : nat :=
+  Nat.max (wdepth_list (hdr_ws m 0)) (wdepth_list (s_body m)).
+
+(* what parsing must recover (the property text): message type, serial, the
+   two flags, every header field with a known code - in header order, with the
+   decoded value of its variant -, and the decoded body (None without one) *)
+Definition recovered_fields (fds : list pyval) (m : smsg) : list (Z * pyval) :=
+  flat_map (fun f => let '(code, t, w) := f in
+                     if known_code code then [(code, readback fds t w)] else []) (s_fields m).
+
+Definition recovered_body (fds : list pyval) (m : smsg) : option (list pyval) :=
+  match s_body_ts m with
+  | [] => None
+  | ts => Some (readback_seq fds ts (s_body m))
+  end.
+
+Definition expect_reply_of (m : smsg) : bool := negb (Z.testbit (s_flags m) 0).
+Definition auto_start_of (m : smsg) : bool := negb (Z.testbit (s_flags m) 1).
+
+(* ---------------------------------------------------------------------------
+   The layout the property text spells out, as a predicate on bytes: a fixed
+   16-byte part (endianness, type, flags, version 1, body length, serial,
+   length of the field array), the field array, zero padding to a multiple of
+   8, and a body of exactly the declared length.                               *)
+Definition wellformed_layout (raw : bytes) (le : bool) (mtype flags : N) (serial : Z) : Prop :=
+  exists farr pad body : bytes,
+    raw = [if le then 108 else 66; mtype; flags; 1]
+          ++ uint 4 le (N.of_nat (length body)) ++ uint 4 le (Z.to_N serial)
+          ++ uint 4 le (N.of_nat (length farr)) ++ farr ++ pad ++ body /\
+    Forall (fun b => b = 0) pad /\ (length pad < 8)%nat /\
+    ((16 + length farr + length pad) mod 8 = 0)%nat.
+
+(* ---------------------------------------------------------------------------
+   Part 2: messages as given to a constructor                                   *)
+
+Record amsg := {
+  a_type : N;                           (* 1 method call, 2 method return, 3 error, 4 signal *)
+  a_no_reply : bool;                    (* NO_REPLY_EXPECTED *)
+  a_no_auto_start : bool;               (* NO_AUTO_START *)
+  a_path : option str;
+  a_interface : option str;
+  a_member : option str;
+  a_error_name : option str;
+  a_reply_serial : option Z;
+  a_destination : option str;
+  a_sender : option str;
+  a_sig : option (list ty);             (* SIGNATURE field; None: no field.  Some []: an empty one *)
+  a_body : list wval;                   (* the body values, typed by a_sig *)
+}.
+
+Definition body_ts (m : amsg) : list ty := match a_sig m with Some ts => ts | None => [] end.
+
+Definition opt_ok (p : str -> bool) (o : option str) : Prop :=
+  match o with Some s => p s = true | None => True end.
+
+Definition present {A} (o : option A) : Prop := o <> None.
+Definition absent {A} (o : option A) : Prop := o = None.
+
+(* a string a STRING field can carry: valid UTF-8 without NUL *)
+Definition string_ok (s : str) : bool :=
+  negb (existsb (N.eqb 0) s) && utf8_valid s.
+
+Definition reserved_local_path : str :=
+  [47; 111; 114; 103; 47; 102; 114; 101; 101; 100; 101; 115; 107; 116; 111; 112; 47; 68; 66; 117; 115; 47; 76; 111; 99; 97; 108].
+
+(* the specification's per-type table of header fields (required ones present,
+   those that do not belong to the type absent), names within their grammars
+   (Spec/Grammar.v), a well-typed body *)
+Definition valid_amsg (fds : list pyval) (m : amsg) : Prop :=
+  match a_type m with
+  | 1 => present (a_path m) /\ present (a_member m) /\ absent (a_error_name m) /\ absent (a_reply_serial m)
+         /\ a_path m <> Some reserved_local_path
+  | 2 => present (a_reply_serial m) /\ absent (a_path m) /\ absent (a_interface m) /\ absent (a_member m)
+         /\ absent (a_error_name m)
+  | 3 => present (a_error_name m) /\ present (a_reply_serial m) /\ absent (a_path m) /\ absent (a_interface m)
+         /\ absent (a_member m)
+  | 4 => present (a_path m) /\ present (a_interface m) /\ present (a_member m) /\ absent (a_error_name m)
+         /\ absent (a_reply_serial m)
+  | _ => False
+  end /\
+  opt_ok g_path (a_path m) /\ opt_ok g_interface (a_interface m) /\ opt_ok g_member (a_member m) /\
+  opt_ok g_error (a_error_name m) /\ opt_ok g_bus (a_destination m) /\ opt_ok string_ok (a_sender m) /\
+  match a_reply_serial m with Some z => (0 <= z < 4294967296)%Z | None => True end /\
+  (length (show_list (body_ts m)) <= 255)%nat /\
+  wt_seq fds (body_ts m) (a_body m).
+
+Definition opt_field {A} (code : Z) (t : ty) (f : A -> wval) (o : option A) : list (Z * ty * wval) :=
+  match o with Some x => [(code, t, f x)] | None => [] end.
+
+(* the header fields in the order of their codes *)
+Definition fields_of (m : amsg) : list (Z * ty * wval) :=
+  opt_field 1 TObjPath WStr (a_path m) ++ opt_field 2 TString WStr (a_interface m) ++
+  opt_field 3 TString WStr (a_member m) ++ opt_field 4 TString WStr (a_error_name m) ++
+  opt_field 5 TUInt32 WInt (a_reply_serial m) ++ opt_field 6 TString WStr (a_destination m) ++
+  opt_field 7 TString WStr (a_sender m) ++ opt_field 8 TSig (fun ts => WStr (show_list ts)) (a_sig m).
+
+Definition flags_byte (m : amsg) : Z :=
+  ((if a_no_reply m then 1 else 0) + (if a_no_auto_start m then 2 else 0))%Z.
+
+(* the wire message an application message denotes, for a byte order and a serial *)
+Definition smsg_of (m : amsg) (le : bool) (serial : Z) : smsg :=
+  {| s_le := le; s_type := Z.of_N (a_type m); s_flags := flags_byte m; s_serial := serial;
+     s_fields := fields_of m; s_body_ts := body_ts m; s_body := a_body m |}.
+
+(* ---------------------------------------------------------------------------
+   Part 3: which Python constructor arguments denote an application message.
+   Strings are given as str, the reply serial as the constructors store it
+   (marshal.UInt32), the signature as the str of the body's types; an absent
+   field is an attribute that is unset or None; the body is any Python value
+   conforming to the signature (Spec/Conforms.v).                               *)
+From Tx Require Import Model.Message.
+
+Definition field_py (m : amsg) (a : attr) : option pyval :=
+  match a with
+  | APath => option_map PStr (a_path m)
+  | AInterface => option_map PStr (a_interface m)
+  | AMember => option_map PStr (a_member m)
+  | AErrorName => option_map PStr (a_error_name m)
+  | AReplySerial => option_map (fun z => PWrap 117 (PInt z)) (a_reply_serial m)
+  | ADestination => option_map PStr (a_destination m)
+  | ASender => option_map PStr (a_sender m)
+  | ASignature => option_map (fun ts => PStr (show_list ts)) (a_sig m)
+  | AUnixFds => None
+  end.
+
+Definition args_denote (attrs : list (attr * pyval)) (body : pyval) (m : amsg) : Prop :=
+  (forall a, match field_py m a with
+             | Some v => get_attr a attrs = Some v
+             | None => get_attr a attrs = None \/ get_attr a attrs = Some PNone
+             end) /\
+  match body_ts m with
+  | [] => True
+  | ts => exists vs, seq_items body = Ok vs /\ conf_seq ts vs (a_body m)
+  end.
+
+(* no descriptors travel with the message (descriptor passing is C20) *)
+Definition no_fds (fds : fdst) : Prop := fds = None \/ fds = Some [].
+
+(* what parsing a constructed message must give back, spelled out: the fields
+   that were given, with their values, in the order of their codes; the body
+   as decoding yields it (read-back convention of C01) *)
+Definition opt_rec {A} (code : Z) (f : A -> pyval) (o : option A) : list (Z * pyval) :=
+  match o with Some x => [(code, f x)] | None => [] end.
+
+Definition own_fields (m : amsg) : list (Z * pyval) :=
+  opt_rec 1 PStr (a_path m) ++ opt_rec 2 PStr (a_interface m) ++ opt_rec 3 PStr (a_member m) ++
+  opt_rec 4 PStr (a_error_name m) ++ opt_rec 5 PInt (a_reply_serial m) ++ opt_rec 6 PStr (a_destination m) ++
+  opt_rec 7 PStr (a_sender m) ++ opt_rec 8 (fun ts => PStr (show_list ts)) (a_sig m).
+
+Definition own_body (fds : list pyval) (m : amsg) : option (list pyval) :=
+  match a_sig m with
+  | Some (t :: ts) => Some (readback_seq fds (t :: ts) (a_body m))
+  | _ => None
+  end.
+
+(* constructor arguments naming an invalid path, interface, member, error name
+   or destination (for the message types whose constructor takes that name) *)
+Definition names_invalid (mtype : N) (attrs : list (attr * pyval)) : Prop :=
+  exists s,
+    ((mtype = 1 \/ mtype = 4) /\ get_attr APath attrs = Some (PStr s) /\ g_path s = false) \/
+    ((mtype = 1 \/ mtype = 4) /\ get_attr AInterface attrs = Some (PStr s) /\ g_interface s = false) \/
+    ((mtype = 1 \/ mtype = 4) /\ get_attr AMember attrs = Some (PStr s) /\ g_member s = false) \/
+    (mtype = 3 /\ get_attr AErrorName attrs = Some (PStr s) /\ g_error s = false) \/
+    ((mtype = 1 \/ mtype = 2 \/ mtype = 3 \/ mtype = 4) /\
+     get_attr ADestination attrs = Some (PStr s) /\ g_bus s = false).
